@@ -23,7 +23,7 @@ var kf *known.File
 
 func TestMain(m *testing.M) {
 	kf, _ = known.Load(ev.KnownFile())
-	rec.Rule("triples (base + neighbour mutations 60%) of versions per system from the DESIGN §6 grammars; oracle = order laws (reflexive, antisymmetric, transitive, congruent), build-metadata and call-history metamorphic relations, sort-permutation relation. Non-trivial: three distinct strings containing an equal pair of distinct strings or a strict chain whose members share the first numeric component. Distinct = distinct (check, system, triple) text.")
+	rec.Rule("triples (base + neighbour mutations 60%) of versions per system from the DESIGN §6 grammars; oracle = order laws (reflexive, antisymmetric, transitive, congruent), build-metadata and call-history metamorphic relations, sort-permutation relation; the same laws on triples of wildcard patterns (1.x, 1.2.*, *, NuGet floating versions) mixed with the short and zero-padded spellings of their numbers, in the four systems whose Parse accepts them (laws-wildcards; non-trivial there: three distinct strings, one a pattern). Non-trivial: three distinct strings containing an equal pair of distinct strings or a strict chain whose members share the first numeric component. Distinct = distinct (check, system, triple) text.")
 	rec.Assume("wildcard patterns (1.x, 1.*) accepted by Parse are asked the laws in the laws-wildcards checks (four systems); the other checks leave them out")
 	rec.Assume("Maven domain restricted to DESIGN §6.4 shape: numeric prefix, optional qualifier, optional number, optional -SNAPSHOT")
 	ev.Main(m, rec)
